@@ -17,7 +17,7 @@ def gen_case(rng):
         return {'kind': 'trained', 'train': trained.gen_train_case(rng, max_len_choices=(21,), coverages=(0.6, 1.0)), 'all_lower': rng.random() < 0.4, 'hseed': rng.getrandbits(32)}
     labels = rng.sample(['A1', 'A2', 'A3', 'A4', 'D1', 'D2', 'O1', 'O2', 'K4', 'Y1', 'X1'], rng.randint(2, 5))
     spec = rulesets.gen_spec(rng, with_m=False, labels=labels, n_base=2, max_len=2, min_groups=1, max_groups=rng.choice([2, 3, 4]), max_per_group=4,
-                             pool=rng.choice(['counts', 'equal', 'dyadic', 'decimal']))
+                             pool=rng.choice(['counts', 'equal', 'dyadic', 'decimal', 'rare']))
     # make sure every label has a terminal list, then build the Prince grammar over all of them
     for lab in labels:
         if lab not in spec['terms']:
